@@ -89,7 +89,13 @@ func (c *Channel) read() {
 
 			simhook.Yield("chan.read.errsend")
 
-			c.Errs <- err
+			select {
+			case c.Errs <- err:
+			case <-c.done:
+				// nobody picked the error up and we are being closed -- Close no longer closes
+				// Errs, so a pending send here can neither panic nor keep this goroutine alive
+				return
+			}
 
 			time.Sleep(c.ReadDelay)
 
